@@ -256,6 +256,13 @@ func (c *compiler) compileType(y *Type, parent Leafable, isUnion bool) error {
 		if _, isList := parent.(*LeafList); isList && !y.format.IsList() {
 			y.format = y.format.List()
 		}
+		// the type is shared by every copy of a leaf that comes from a grouping and is
+		// compiled once, but each copy has to get the default and units of the typedef
+		if _, builtinType := val.TypeAsFormat(y.ident); !builtinType && !isUnion {
+			if tdef, err := c.findTypedef(y, parent, y.ident); err == nil {
+				c.inheritFromTypedef(parent, tdef)
+			}
+		}
 		return nil
 	}
 	var builtinType bool
@@ -271,14 +278,7 @@ func (c *compiler) compileType(y *Type, parent Leafable, isUnion bool) error {
 		tdef.dtype.mixin(y)
 
 		if !isUnion {
-			if !parent.HasDefault() {
-				if tdef.HasDefault() {
-					parent.setDefaultValue(tdef.DefaultValue())
-				}
-			}
-			if parent.Units() == "" {
-				parent.setUnits(tdef.Units())
-			}
+			c.inheritFromTypedef(parent, tdef)
 		}
 	}
 
@@ -364,6 +364,18 @@ func (c *compiler) compileType(y *Type, parent Leafable, isUnion bool) error {
 	}
 
 	return nil
+}
+
+// what a leaf does not state itself comes from the typedef of its type
+func (c *compiler) inheritFromTypedef(parent Leafable, tdef *Typedef) {
+	if !parent.HasDefault() {
+		if tdef.HasDefault() {
+			parent.setDefaultValue(tdef.DefaultValue())
+		}
+	}
+	if parent.Units() == "" {
+		parent.setUnits(tdef.Units())
+	}
 }
 
 func (c *compiler) findTypedef(y *Type, parent Definition, qualifiedIdent string) (*Typedef, error) {
